@@ -22,3 +22,27 @@ impl TimeZoneProvider for ErrProvider {
         Err(TemporalError::general("ErrProvider consulted"))
     }
 }
+
+/// A provider that knows exactly one zone, "UTC", with offset 0 (Instant strings without a zone ask for it).
+pub struct UtcProvider;
+
+impl TimeZoneProvider for UtcProvider {
+    fn check_identifier(&self, id: &str) -> bool {
+        id.eq_ignore_ascii_case("UTC")
+    }
+    fn get_named_tz_epoch_nanoseconds(&self, id: &str, local: IsoDateTime) -> TemporalResult<Vec<EpochNanoseconds>> {
+        if !self.check_identifier(id) {
+            return Err(TemporalError::range().with_message("UtcProvider: unknown zone"));
+        }
+        Ok(vec![local.as_nanoseconds()?])
+    }
+    fn get_named_tz_offset_nanoseconds(&self, id: &str, _: i128) -> TemporalResult<TimeZoneOffset> {
+        if !self.check_identifier(id) {
+            return Err(TemporalError::range().with_message("UtcProvider: unknown zone"));
+        }
+        Ok(TimeZoneOffset { transition_epoch: None, offset: 0 })
+    }
+    fn get_named_tz_transition(&self, _: &str, _: i128, _: TransitionDirection) -> TemporalResult<Option<EpochNanoseconds>> {
+        Ok(None)
+    }
+}
